@@ -306,7 +306,8 @@ impl BDF {
             let mut h_signed = direction * h_try;
             let x_start = x;
             let mut x_new = x + h_signed;
-            if direction * (x_new - xend) > 0.0 {
+            // (0.01% stretch: a step that would end within rounding of xend lands on it instead of leaving a sliver)
+            if direction * (x + 1.0001 * h_signed - xend) >= 0.0 {
                 let step_to_end = (xend - x).abs();
                 if step_to_end == 0.0 {
                     status = Status::Success;
